@@ -1,7 +1,6 @@
 (* Spec/SmtBv.v -- deep embedding of the fragment of the SMT-LIB theory FixedSizeBitVectors
    (logic QF_BV, https://smt-lib.org/theories-FixedSizeBitVectors.shtml and
-   https://smt-lib.org/logics-all.shtml#QF_BV) that etk-analyze/src/sym.rs uses, plus z3's
-   bv2int / integer power / int2bv.  TRUSTED: this is a reading of the standard, not derived
+   https://smt-lib.org/logics-all.shtml#QF_BV) that etk-analyze/src/sym.rs uses.  TRUSTED: this is a reading of the standard, not derived
    from /repo.  A bit-vector of width w is denoted by its unsigned value bv2nat in [0, 2^w). *)
 From Coq Require Import ZArith String List Bool.
 From Verif Require Import Model.Base.
@@ -23,7 +22,6 @@ Inductive bvterm :=
 | BExtract (hi lo : Z) (a : bvterm)   (* ((_ extract hi lo) a) *)
 | BConcat (a b : bvterm)              (* (concat a b): a is the most significant part *)
 | BIte (c : bvform) (a b : bvterm)
-| BIntPow (a b : bvterm)              (* ((_ int2bv 256) (^ (bv2int a) (bv2int b))) *)
 with bvform :=
 | FCmp (op : cmpop) (a b : bvterm)    (* =, bvult, bvugt, bvslt, bvsgt *)
 | FNot (f : bvform).
@@ -32,7 +30,7 @@ with bvform :=
 Fixpoint width (t : bvterm) : Z :=
   match t with
   | BVal _ w => w
-  | BNamed _ | BFresh _ _ | BApp _ _ | BIntPow _ _ => 256
+  | BNamed _ | BFresh _ _ | BApp _ _ => 256
   | BBin _ a _ | BNot a | BIte _ a _ => width a
   | BZext k a => width a + k
   | BExtract hi lo _ => hi - lo + 1
@@ -51,7 +49,6 @@ Fixpoint wf_term (t : bvterm) : bool :=
   | BExtract hi lo a => wf_term a && (0 <=? lo) && (lo <=? hi) && (hi <? width a)
   | BConcat a b => wf_term a && wf_term b
   | BIte c a b => wf_form c && wf_term a && wf_term b && (width a =? width b)
-  | BIntPow a b => wf_term a && wf_term b
   end
 with wf_form (f : bvform) : bool :=
   match f with
@@ -148,19 +145,12 @@ Definition cmp_sem (op : cmpop) (w a b : Z) : bool :=
   end.
 
 (* ---------- interpretations ---------- *)
-(* Values are reduced modulo 2^256 by bv_eval, so any functions will do.
-   i_pow00: z3 leaves the integer power 0^0 unspecified (it is the uninterpreted "power0"
-   of its arithmetic theory: every value is satisfiable, checked with z3 5.1); the
-   interpretation therefore chooses it. *)
+(* Values are reduced modulo 2^256 by bv_eval, so any functions will do. *)
 Record interp := mkInterp {
   i_named : string -> Z;
   i_fresh : nat -> Z;
-  i_uf : string -> Z -> Z;
-  i_pow00 : Z
+  i_uf : string -> Z -> Z
 }.
-
-(* (^ x y) on non-negative integers *)
-Definition int_pow (pow00 x y : Z) : Z := if (x =? 0) && (y =? 0) then pow00 else x ^ y.
 
 Fixpoint bv_eval (M : interp) (t : bvterm) : Z :=
   match t with
@@ -174,8 +164,6 @@ Fixpoint bv_eval (M : interp) (t : bvterm) : Z :=
   | BExtract hi lo a => (bv_eval M a / 2 ^ lo) mod 2 ^ (hi - lo + 1)
   | BConcat a b => bv_eval M a * 2 ^ width b + bv_eval M b
   | BIte c a b => if form_eval M c then bv_eval M a else bv_eval M b
-  (* bv2int is the unsigned value; int2bv 256 reduces modulo 2^256 *)
-  | BIntPow a b => int_pow (i_pow00 M) (bv_eval M a) (bv_eval M b) mod 2 ^ 256
   end
 with form_eval (M : interp) (f : bvform) : bool :=
   match f with
@@ -208,8 +196,6 @@ Fixpoint smt_of_term (t : bvterm) : string :=
       "((_ extract " +++ dec_of_Z hi +++ " " +++ dec_of_Z lo +++ ") " +++ smt_of_term a +++ ")"
   | BConcat a b => "(concat " +++ smt_of_term a +++ " " +++ smt_of_term b +++ ")"
   | BIte c a b => "(ite " +++ smt_of_form c +++ " " +++ smt_of_term a +++ " " +++ smt_of_term b +++ ")"
-  | BIntPow a b =>
-      "((_ int2bv 256) (^ (bv2int " +++ smt_of_term a +++ ") (bv2int " +++ smt_of_term b +++ ")))"
   end
 with smt_of_form (f : bvform) : string :=
   match f with
